@@ -46,11 +46,35 @@ class Check(object):
         self.stats = {}
         self.rules_run = []
         self.floor_failures = []
+        self.deferred_errors = []
         self.analysis_error = None
+
+    def guard(self, what):
+        """`with ck.guard("C18.2 truth table"):` - an AnalysisError raised inside (construct outside the modelled subset)
+        is kept for finish() instead of ending the run, so that the rules that follow still examine the code: a finding
+        they establish stands (ANALYSIS-INCOMPLETE), and without any finding the run still ends as an analysis error."""
+        ck = self
+
+        class _G(object):
+            def __enter__(self_):
+                return self_
+
+            def __exit__(self_, et, ev, tb):
+                from .model import AnalysisError
+                if et is not None and issubclass(et, AnalysisError):
+                    ck.deferred_errors.append(AnalysisError("%s: %s" % (what, ev)))
+                    return True
+                return False
+        return _G()
 
     def finish(self):
         """called after all rules ran: a floor failure without any finding is an analysis error"""
         from .model import AnalysisError
+        if getattr(self, "deferred_errors", None):
+            if not self.findings:
+                raise self.deferred_errors[0]
+            if self.analysis_error is None:
+                self.analysis_error = self.deferred_errors[0]
         if self.floor_failures:
             if not self.findings:
                 raise AnalysisError(self.floor_failures[0])
